@@ -526,6 +526,23 @@ func Blocking() {
 	}
 }
 
+// SelectFirst decides which case of a select statement with n channel cases is tried first (T6: the
+// instrumenter tries the cases one at a time, without blocking, starting there, and falls back to the
+// original statement when none is ready). Go picks uniformly among the ready cases; every pick is
+// reachable by starting at it, and the default (0) is source order.
+func SelectFirst(n int) int {
+	s := active.Load()
+	if s == nil || s.free || s.aborting.Load() || n <= 1 {
+		return 0
+	}
+	t := s.me()
+	if t == nil || t != s.cur {
+		return 0 // a goroutine the simulator does not schedule
+	}
+	s.Probe("select-with-several-cases")
+	return s.Choose(n, "select")
+}
+
 // Sleeping announces an imminent time.Sleep(d).
 func Sleeping(d time.Duration) {
 	s := active.Load()
